@@ -3,6 +3,7 @@ package props
 import (
 	"fmt"
 	"go/token"
+	"go/types"
 	"strings"
 
 	"ndndcheck/core"
@@ -979,5 +980,74 @@ func c01Round4(c *core.Ctx) {
 			}
 		})
 		c.Decide(n > 0 && partial == "", "R1.15", "all-prefixes-include-the-empty-prefix", p.Pos(hp.Pos()), "the prefix hashes are scanned from index 0", "HashNameToAllPrefixFwThreads does not visit every prefix hash ("+partial+"): the thread in which an Interest for the zero-component name with CanBePrefix is pending never receives token-less Data")
+		// ... on every return: a branch that answers early (the /localhost shortcut) marks
+		// the thread of the zero-component name explicitly, or goes through the full scan
+		var scanHeaders []*ssa.BasicBlock
+		core.Instrs(hp, func(in ssa.Instruction) {
+			ia, ok := in.(*ssa.IndexAddr)
+			if !ok {
+				return
+			}
+			if cl, isC := core.Strip(ia.X).(*ssa.Call); isC {
+				if id, okID := core.Callee(&cl.Call); okID && id.Name == "PrefixHash" {
+					if tr, _ := core.TraversalOf(ia); tr == core.TraversalFull {
+						if h := loopHeader(ia.Block()); h != nil {
+							scanHeaders = append(scanHeaders, h)
+						}
+					}
+				}
+			}
+		})
+		isEmptyName := func(v ssa.Value) bool {
+			switch x := core.Strip(v).(type) {
+			case *ssa.Const:
+				return x.IsNil()
+			case *ssa.MakeSlice:
+				k, isC := core.ConstInt(x.Len)
+				return isC && k == 0
+			case *ssa.Slice:
+				if al, ok := core.Strip(x.X).(*ssa.Alloc); ok {
+					if at, okA := core.Deref(al.Type()).Underlying().(*types.Array); okA {
+						return at.Len() == 0
+					}
+				}
+			}
+			return false
+		}
+		isMark := func(in ssa.Instruction) bool {
+			st, ok := in.(*ssa.Store)
+			if !ok {
+				return false
+			}
+			ia, ok := st.Addr.(*ssa.IndexAddr)
+			if !ok {
+				return false
+			}
+			cl, ok := core.StripConv(ia.Index).(*ssa.Call)
+			if !ok || len(cl.Call.Args) != 1 {
+				return false
+			}
+			if cal := cl.Call.StaticCallee(); cal == nil || cal.Name() != "HashNameToFwThread" {
+				return false
+			}
+			return isEmptyName(cl.Call.Args[0])
+		}
+		nRet, badRet := 0, ""
+		core.Instrs(hp, func(in ssa.Instruction) {
+			r, ok := in.(*ssa.Return)
+			if !ok {
+				return
+			}
+			nRet++
+			for _, h := range scanHeaders {
+				if h.Dominates(r.Block()) {
+					return
+				}
+			}
+			if !core.Precedes(hp, r, isMark) {
+				badRet = c.Pos(r)
+			}
+		})
+		c.Decide(nRet > 0 && badRet == "", "R1.15", "every-answer-includes-the-empty-prefix", p.Pos(hp.Pos()), fmt.Sprintf("%d returns, each after the full scan or after marking the thread of the zero-component name", nRet), "HashNameToAllPrefixFwThreads can answer (return at "+badRet+") without the thread of the zero-component name — e.g. the /localhost shortcut that names thread 0 only: token-less /localhost Data never reaches an Interest for / with CanBePrefix, which is pending in the thread the empty name hashes to")
 	}
 }
